@@ -245,7 +245,8 @@ static int st_pop(long long *v)
 #include <pthread.h>
 #include <sched.h>
 struct thr_push { ESL_STACK *s; char t; long long *v; int n; int stride; int start; int bad; };
-struct thr_pop  { ESL_STACK *s; char t; long long *got; int ngot; int cap; int eods; int bad; };
+struct thr_pop  { ESL_STACK *s; char t; long long *got; int ngot; int cap; int eods; int early; int bad; };
+static int thr_released;   /* set by the main thread just before it calls esl_stack_ReleaseCond(): an eslEOD seen earlier came while do_cond was still set */
 static void *thr_pusher(void *arg)
 {
   struct thr_push *a = arg; int i, st;
@@ -265,7 +266,7 @@ static void *thr_popper(void *arg)
     if      (a->t == 'i') { int x;   st = esl_stack_IPop(a->s, &x); v = x; }
     else if (a->t == 'c') { char c;  st = esl_stack_CPop(a->s, &c); v = (unsigned char) c; }
     else                  { void *q; st = esl_stack_PPop(a->s, &q); v = (long long)(intptr_t) q; }
-    if (st == eslEOD) { a->eods++; break; }
+    if (st == eslEOD) { if (!__atomic_load_n(&thr_released, __ATOMIC_SEQ_CST)) a->early++; a->eods++; break; }
     if (st != eslOK)  { a->bad++;  break; }
     if (a->ngot < a->cap) a->got[a->ngot] = v;
     a->ngot++;
@@ -603,12 +604,13 @@ static void h_op(void)
      * pushed ones (reported sorted), nothing is left, every popper saw exactly one eslEOD. */
     const char *t = h_arg("t"); char ty = t ? t[0] : 'i';
     int P = (int) h_argi("pushers", 1), Q = (int) h_argi("poppers", 1), popfirst = (int) h_argi("popfirst", 0);
-    long long *v; int n = parse_ints(h_arg("v"), &v), i, j, bad = 0, tot = 0, eods = 0, left, st;
+    long long *v; int n = parse_ints(h_arg("v"), &v), i, j, bad = 0, tot = 0, eods = 0, early = 0, left, st;
     ESL_STACK *s = ty == 'i' ? esl_stack_ICreate() : (ty == 'c' ? esl_stack_CCreate() : esl_stack_PCreate());
     pthread_t *tp, *tq; struct thr_push *ap; struct thr_pop *aq; long long *all;
     if (P < 1 || P > 16 || Q < 1 || Q > 16 || !s) { free(v); if (s) esl_stack_Destroy(s); h_out("bad-op"); return; }
     tp = malloc(sizeof(*tp) * (size_t) P); tq = malloc(sizeof(*tq) * (size_t) Q);
     ap = calloc((size_t) P, sizeof(*ap)); aq = calloc((size_t) Q, sizeof(*aq)); all = malloc(sizeof(long long) * (size_t)(n + 1));
+    __atomic_store_n(&thr_released, 0, __ATOMIC_SEQ_CST);
     if (esl_stack_UseMutex(s) != eslOK) bad++;
     if (esl_stack_UseCond(s)  != eslOK) bad++;
     for (j = 0; j < Q; j++) { aq[j].s = s; aq[j].t = ty; aq[j].cap = n; aq[j].got = malloc(sizeof(long long) * (size_t)(n + 1)); }
@@ -617,15 +619,16 @@ static void h_op(void)
     for (i = 0; i < P; i++) pthread_create(&tp[i], NULL, thr_pusher, &ap[i]);
     if (!popfirst) for (j = 0; j < Q; j++) pthread_create(&tq[j], NULL, thr_popper, &aq[j]);
     for (i = 0; i < P; i++) { pthread_join(tp[i], NULL); bad += ap[i].bad; }
+    __atomic_store_n(&thr_released, 1, __ATOMIC_SEQ_CST);
     st = esl_stack_ReleaseCond(s); if (st != eslOK) bad++;
-    for (j = 0; j < Q; j++) { pthread_join(tq[j], NULL); bad += aq[j].bad; eods += aq[j].eods; }
+    for (j = 0; j < Q; j++) { pthread_join(tq[j], NULL); bad += aq[j].bad; eods += aq[j].eods; early += aq[j].early; }
     for (j = 0; j < Q; j++) for (i = 0; i < aq[j].ngot; i++) { if (i < aq[j].cap && tot < n) all[tot] = aq[j].got[i]; tot++; }
     left = esl_stack_ObjectCount(s);
     qsort(all, (size_t)(tot < n ? tot : n), sizeof(long long), cmp_ll);
     ob_reset();
     for (i = 0; i < tot && i < n; i++) ob_int(all[i], i == 0);
     if (tot > n) ob_add(",+%d-more", tot - n);
-    if (bad) h_out("esys bad=%d", bad); else h_out("ok popped=%s left=%d eods=%d", tot ? OB : "-", left, eods);
+    if (bad) h_out("esys bad=%d", bad); else h_out("ok popped=%s left=%d eods=%d early=%d", tot ? OB : "-", left, eods, early);
     for (j = 0; j < Q; j++) free(aq[j].got);
     free(tp); free(tq); free(ap); free(aq); free(all); free(v);
     esl_stack_Destroy(s);
